@@ -77,7 +77,12 @@ func (e *Engine) unop(instr *ssa.UnOp, x value) value {
 			return &symv{app(x.t.bits, "bvnot", x.t)}
 		}
 	case token.ARROW:
-		e.unsupported("channel receive")
+		ch, _ := x.(*chanv)
+		v, ok := e.chanRecv(ch)
+		if instr.CommaOk {
+			return tuple{v, ok}
+		}
+		return v
 	}
 	panic(fmt.Sprintf("unop %v on %T", instr.Op, x))
 }
@@ -369,6 +374,8 @@ func (e *Engine) equals(t types.Type, x, y value) value {
 		return x == y.(*value)
 	case *mapv:
 		return x == y.(*mapv)
+	case *chanv:
+		return x == y.(*chanv)
 	case *ssa.Function:
 		yf, ok := y.(*ssa.Function)
 		return ok && x == yf
